@@ -135,7 +135,24 @@ run_batch(struct mmgr *mm, struct rng *r, int cfg)
 int
 eng_conf(void)
 {
-        const char *fam = g_opt.arg1 ? g_opt.arg1 : "cipher";
+        char famb[64];
+        const char *only_suite = NULL;
+        long lenlo = -1, lenhi = -1;
+        snprintf(famb, sizeof famb, "%s", g_opt.arg1 ? g_opt.arg1 : "cipher");
+        {
+                /* family[:suite[:lo-hi]] */
+                char *c = strchr(famb, ':');
+                if (c) {
+                        *c++ = 0;
+                        only_suite = c;
+                        char *d = strchr(c, ':');
+                        if (d) {
+                                *d++ = 0;
+                                sscanf(d, "%ld-%ld", &lenlo, &lenhi);
+                        }
+                }
+        }
+        const char *fam = famb;
         const struct suite *tab;
         int ntab;
         struct rng r;
@@ -170,6 +187,8 @@ eng_conf(void)
                         continue;
                 for (int si = 0; si < ntab; si++) {
                         const struct suite *s = &tab[si];
+                        if (only_suite && strcmp(only_suite, s->name))
+                                continue;
                         for (long b = 0; b < per; b++, unit++) {
                                 if (unit % g_opt.nshards != g_opt.shard)
                                         continue;
@@ -200,6 +219,8 @@ eng_conf(void)
                                                 g.len = big_lens[rng_below(&ur, ARRAY_SZ(big_lens))];
                                         if (g_opt.tier == 0 && g.len > 20000 && rng_below(&ur, 4))
                                                 g.len = -1; /* keep quick tier fast */
+                                        if (lenlo >= 0)
+                                                g.len = lenlo + (long) rng_below(&ur, (uint32_t) (lenhi - lenlo + 1));
                                         if (s->aead || s->cipher != IMB_CIPHER_NULL)
                                                 item_gen(B.it[i], s, NULL, &ur, &g, mm);
                                         else
